@@ -241,6 +241,10 @@ theorem std_dims_squarest (n w h : Nat) (hs : SpecStdDims n w h) (h3 : n % 3 = 0
     (∀ a b : Nat, a * b = n / 3 → b ≤ a → b ≤ h / 12 ∧ w / 12 ≤ a) ∧ w * h = 48 * n :=
   ⟨fun a b hab hba => std_dims_squarest' n w h hs hn a b hab hba, std_dims_chips n w h hs h3⟩
 
+/-- the cheap form of the oracle used for huge board counts is the same predicate -/
+theorem spec_std_dims_fast_iff (n w h : Nat) : SpecStdDimsFast n w h ↔ SpecStdDims n w h :=
+  spec_std_dims_fast_iff' n w h
+
 /-- special cases and errors: 0 ↦ (0,0), 1 ↦ (8,8), other non-multiples of 3 and negative
 counts raise ValueError -/
 theorem std_dims_errors :
@@ -278,6 +282,7 @@ example : ∃ e, OnBoard (0, 0) e (1, 1) ∧ OnBoard (0, 0) e (7, 7) := ⟨(0, 0
 -- dimensions
 example : stdDims 24 = .ok (48, 24) ∧ SpecStdDims 24 48 24 ∧ ¬ SpecStdDims 24 96 12 ∧ ¬ SpecStdDims 24 24 48 ∧
     ¬ SpecStdDims 24 48 12 := by decide +kernel
+example : SpecStdDimsFast 24 48 24 ∧ ¬ SpecStdDimsFast 24 96 12 ∧ ¬ SpecStdDimsFast 24 24 48 := by decide +kernel
 example : stdDims 3 = .ok (12, 12) ∧ stdDims 1200 = .ok (240, 240) ∧ stdDims 21 = .ok (84, 12) := by decide +kernel
 
 end Rig.C19
